@@ -314,7 +314,7 @@ func (s *Sim) Step() (progress bool) {
 	}
 	s.step++
 	s.logf("%s %s", actionKindNames[chosen.kind], chosen.key)
-	if chosen.kind == akGrant || chosen.kind == akDeliver || chosen.kind == akResume {
+	if s.logOn && (chosen.kind == akGrant || chosen.kind == akDeliver || chosen.kind == akResume) {
 		h := fnv.New64a()
 		fmt.Fprintf(h, "%d|%s", s.schedSig, chosen.key)
 		s.schedSig = h.Sum64()
@@ -437,4 +437,31 @@ func (s *Sim) noteTime() {
 	for len(s.stepTime) <= s.step {
 		s.stepTime = append(s.stepTime, now)
 	}
+}
+
+// quiet runs f as a region whose internal scheduling is not part of the
+// run's observable history: logging is off, and afterwards the step counter
+// and the virtual clock are advanced to fixed offsets from the region's
+// start. This absorbs the one source of nondeterminism the simulator does
+// not control - the order of goroutines woken by timers that fire at the very
+// same virtual instant (tile38's shutdown path waits on several such loops).
+func (s *Sim) quiet(stepBudget int, dur time.Duration, f func()) {
+	startStep, startT := s.step, s.now()
+	logWas, sigWas := s.logOn, s.schedSig
+	s.logOn = false
+	f()
+	s.logOn = logWas
+	s.schedSig = sigWas
+	if s.step > startStep+stepBudget {
+		s.harnessErr("quiet region used %d steps (budget %d)", s.step-startStep, stepBudget)
+	}
+	s.step = startStep + stepBudget
+	s.rrCounter = 0
+	if rem := startT + dur - s.now(); rem > 0 {
+		time.Sleep(rem)
+	} else if rem < 0 {
+		s.harnessErr("quiet region took %v of virtual time (budget %v)", s.now()-startT, dur)
+	}
+	synctest.Wait()
+	s.noteTime()
 }
